@@ -73,6 +73,11 @@ def lookup_cases(tier):
     # objects, so they must hash like them and find them in dictionaries.  String hashes are salted per interpreter.
     for hs in ("1", "2", "random"):
         yield {"t": "foreign", "hashseed": hs}
+    # the two-argument form fed with short-lived first arguments (numpy integers, equal copies of the element): one after the other
+    # through all isobars, so that whatever is remembered about a dead argument (its address, say) meets the next one
+    for flavour in ("int64", "int32", "constructed", "deepcopy", "pickle"):
+        for order in ("up", "down"):
+            yield {"t": "isobars", "flavour": flavour, "order": order}
     names = [n for n, _ in SPECIES]
     B = 24
     blocks = [names[i:i + B] for i in range(0, len(names), B)]
@@ -181,6 +186,24 @@ def run_lookup(case, ctx):
         for n, s in SPECIES:
             ctx.check(getattr(A, n, None) is s, "exports", "cherab.core.atomic.%s is not elements.%s" % (n, n))
             ctx.check(n == s.name, "exports", "attribute %s holds species named %r" % (n, s.name))
+    elif t == "isobars":
+        import copy as _copy, pickle as _pickle
+        import numpy as _np2
+        mk = {"int64": lambda e: _np2.int64(e.atomic_number), "int32": lambda e: _np2.int32(e.atomic_number),
+              "constructed": lambda e: Element(e.name, e.symbol, e.atomic_number, e.atomic_weight),
+              "deepcopy": lambda e: _copy.deepcopy(e), "pickle": lambda e: _pickle.loads(_pickle.dumps(e))}[case["flavour"]]
+        by_a = {}
+        for n, i in ISOTOPES:
+            by_a.setdefault(i.mass_number, []).append(i)
+        for A in (sorted(by_a) if case["order"] == "up" else sorted(by_a, reverse=True)):
+            group = by_a[A] if case["order"] == "up" else by_a[A][::-1]
+            for rep in range(2):
+                for i in group:
+                    with ctx.cut("lookup_isotope"):
+                        got = lookup_isotope(mk(i.element), A) if rep == 0 else lookup_isotope(mk(i.element), number=A)
+                    ctx.check(got is i, "lookup_isotope", lambda: "lookup_isotope(<%s of %s>, %d) returned %r, expected %s"
+                              % (case["flavour"], i.element.name, A, getattr(got, "name", got), i.name))
+        ctx.label("isobars:" + case["flavour"])
     elif t == "foreign":
         import os, pickle, subprocess, sys
         from .. import VERIF_DIR
